@@ -423,7 +423,11 @@ func (x *Exec) doMakeSlice(fr *frame, st *State, in *ssa.MakeSlice) {
 func (x *Exec) doMakeInterface(fr *frame, st *State, in *ssa.MakeInterface) {
 	xt := in.X.Type()
 	v := x.val(fr, st, in.X)
-	switch xt.Underlying().(type) {
+	var ut types.Type = xt.Underlying()
+	if isTypeParam(xt) {
+		ut = types.Typ[types.Invalid] // boxed
+	}
+	switch ut.(type) {
 	case *types.Pointer, *types.Signature, *types.Map, *types.Chan, *types.Interface:
 		fr.regs[in] = v // same identity
 		x.noteDynType(st, v, xt)
